@@ -53,9 +53,25 @@ def _norm(x):
 def replay_chunk(cases: List[Dict[str, Any]]):
     from ..seams import run_nodes
 
-    out = {"n": 0, "rejected": 0, "viol": [], "drift": [], "nontrivial": 0}
+    out = {"n": 0, "rejected": 0, "viol": [], "drift": [], "nontrivial": 0, "via_yaml": 0}
+    import tempfile
+    import zlib
+    from ..gamma import render_yaml
     for case in cases:
         nodes = g_prog(case["prog"])
+        if zlib.crc32(repr(case["prog"]).encode()) % 4 == 0:
+            # the loader path: render to YAML text, load it back with load_pipeline_from_yaml
+            from semantiva.configurations import load_pipeline_from_yaml
+            with tempfile.NamedTemporaryFile("w", suffix=".yaml", delete=True) as fh:
+                fh.write(render_yaml(nodes, flow=bool(len(nodes) % 2)))
+                fh.flush()
+                try:
+                    nodes = load_pipeline_from_yaml(fh.name).nodes
+                    out["via_yaml"] += 1
+                except Exception as exc:
+                    out["rejected"] += 1
+                    out["drift"].append(f"YAML loader rejected {prog_key(case['prog'])}: {type(exc).__name__}: {exc}"[:200])
+                    continue
         obs = run_nodes(nodes, g_data(case["idata"]), g_ctx(case["ictx"]))
         out["n"] += 1
         if obs["construct_error"]:
@@ -83,6 +99,7 @@ def _replay_emitted(run: core.Run, module: str, cfg: str, *, exhaustive: bool, s
         for r in pmap(replay_chunk, tlc.iter_emitted(path)):
             n += r["n"]
             seen_rej += r["rejected"]
+            run.extra["replayed_via_yaml_loader"] = run.extra.get("replayed_via_yaml_loader", 0) + r.get("via_yaml", 0)
             run.nontrivial += r["nontrivial"]
             for key, what, rep in r["viol"]:
                 run.violation(key, what, rep)
